@@ -1159,12 +1159,12 @@ func (a *bAnalysis) visit(f *bFunc, held []string, path []string, root string) {
 
 // ---- output -----------------------------------------------------------------------------
 
-func coqStr(s string) string { return "\"" + strings.ReplaceAll(s, "\"", "'") + "\"" }
+func bCoqStr(s string) string { return "\"" + strings.ReplaceAll(s, "\"", "'") + "\"" }
 
 func coqStrs(l []string) string {
 	q := make([]string, len(l))
 	for i, s := range l {
-		q[i] = coqStr(s)
+		q[i] = bCoqStr(s)
 	}
 	return "[" + strings.Join(q, "; ") + "]"
 }
@@ -1287,7 +1287,7 @@ func genBlocking() (string, string) {
 		for j, h := range s.held {
 			held[j] = h
 		}
-		fmt.Fprintf(&b, "  mkBS %s %s %s %s %s %s\n    %s%s\n", coqStr(s.root), coqStr(s.fn), coqStr(s.op), coqStr(s.kind), coqStr(s.guard), coqStrs(held), coqStrs(s.path), sep)
+		fmt.Fprintf(&b, "  mkBS %s %s %s %s %s %s\n    %s%s\n", bCoqStr(s.root), bCoqStr(s.fn), bCoqStr(s.op), bCoqStr(s.kind), bCoqStr(s.guard), coqStrs(held), coqStrs(s.path), sep)
 	}
 	b.WriteString("].\n\n")
 	var keys []string
@@ -1303,7 +1303,7 @@ func genBlocking() (string, string) {
 		if i == len(keys)-1 {
 			sep = ""
 		}
-		fmt.Fprintf(&b, "  mkLE %s %s %s %s %s\n    %s%s\n", coqStr(e.from), coqStr(e.to), coqStr(e.mode), coqStr(e.fn), coqStr(e.root), coqStrs(e.path), sep)
+		fmt.Fprintf(&b, "  mkLE %s %s %s %s %s\n    %s%s\n", bCoqStr(e.from), bCoqStr(e.to), bCoqStr(e.mode), bCoqStr(e.fn), bCoqStr(e.root), coqStrs(e.path), sep)
 	}
 	b.WriteString("].\n\n")
 	b.WriteString("(* functions reachable from each client root *)\n")
@@ -1318,7 +1318,7 @@ func genBlocking() (string, string) {
 		if i == len(blockingClientRoots)-1 {
 			sep = ""
 		}
-		fmt.Fprintf(&b, "  (%s, %s)%s\n", coqStr(r), coqStrs(fs), sep)
+		fmt.Fprintf(&b, "  (%s, %s)%s\n", bCoqStr(r), coqStrs(fs), sep)
 	}
 	b.WriteString("].\n\n")
 	var un []string
